@@ -1844,6 +1844,28 @@ Proof.
     apply filter_In in X. exact (proj1 X).
 Qed.
 
+(* ================= a pending request's waiter stays, whatever else comes and goes ================= *)
+(* A waiter registered under identifier X is removed only by an acknowledgement of its kind
+   carrying X (or its caller giving up, or the end of the connection): after any history [mid] —
+   any number of other requests registered and acknowledged meanwhile under other identifiers,
+   any foreign acknowledgements — the request is still blocked waiting for exactly its own
+   acknowledgement, i.e. its entry is there and live. *)
+Theorem pending_waiter_stays evs pre h rk id mid :
+  wf evs = true -> evs = pre ++ Start h rk id :: mid ->
+  (forall e, In e mid -> own_ack (first_kind rk) id e = false) -> ~ In (Cancel h) mid ->
+  no_close (run sig_init evs) ->
+  awaited (state_after sig_init evs) (first_kind rk) id = true.
+Proof.
+  intros W E Hm Hcn Hnc.
+  destruct (wf_unique_start evs pre h rk id mid W E) as [Np _].
+  unfold no_close in Hnc. rewrite run_length in Hnc.
+  pose proof (open_after evs sig_init eq_refl Hnc) as Hopen.
+  apply (awaited_iff_waiting evs _ _ W Hopen).
+  exists h, (subs_of rk). unfold phase_after.
+  destruct (prefix_to_wait h rk id pre mid Np Hm Hcn) as [_ R2]. rewrite <- E in R2.
+  rewrite spec_end_quiet in R2. injection R2 as R2. exact R2.
+Qed.
+
 (* ================= non-vacuity: concrete histories satisfying the hypotheses ================= *)
 Definition ackOf (k : akind) (id : N) : ack := mkAck k id [].
 
